@@ -3,11 +3,14 @@ pub mod c01;
 pub mod c02;
 pub mod c03;
 pub mod c04;
+pub mod c05;
 pub mod c06;
 pub mod c07;
 pub mod c08;
 pub mod c09;
+pub mod c10;
 pub mod c11;
+pub mod c14;
 pub mod c15;
 
 pub fn dispatch(ctx: &Ctx, rest: &[String]) -> i32 {
@@ -30,11 +33,14 @@ pub fn dispatch(ctx: &Ctx, rest: &[String]) -> i32 {
         "C02" => c02::run(ctx),
         "C03" => c03::run(ctx),
         "C04" => c04::run(ctx),
+        "C05" => c05::run(ctx),
         "C06" => c06::run(ctx),
         "C07" => c07::run(ctx),
         "C08" => c08::run(ctx),
         "C09" => c09::run(ctx),
+        "C10" => c10::run(ctx),
         "C11" => c11::run(ctx),
+        "C14" => c14::run(ctx),
         "C15" => c15::run(ctx),
         other => {
             eprintln!("unknown check {}", other);
